@@ -146,23 +146,21 @@ Lemma brace_ok s mn0 mx0 : good s ->
        let s := tl s in
        let '(mn, s) := digits s 0%Z in
        let '(mx, s) := if hd0 s =? 44 then let s := tl s in digits s (if hd0 s =? 125 then (-1)%Z else 0%Z) else (mn, s) in
-       do s <- adv SBrace s 1;
-       if (NREPS <? mn)%Z || (NREPS <? mx)%Z || ((0 <=? mx)%Z && (mx <? mn)%Z) then Ok (None, s) else Ok (Some (mn, mx), s)
+       if negb (hd0 s =? 125) || (NREPS <? mn)%Z || (NREPS <? mx)%Z || ((0 <=? mx)%Z && (mx <? mn)%Z) then Ok (None, s) else Ok (Some (mn, mx), tl s)
      else Ok (Some (mn0, mx0), s)) = Ok (r, s') /\ sfx s' s.
 Proof.
-  intro Hg. destruct (hd0 s =? 123) eqn:E; [|eexists _, _; split; [reflexivity | apply sfx_refl]].
-  assert (Hh : hd0 s = 123) by lia. cbv zeta.
+  intros _. destruct (hd0 s =? 123) eqn:E; [|eexists _, _; split; [reflexivity | apply sfx_refl]].
+  cbv zeta.
   pose proof (cpx_digits (tl s) 0%Z) as C1. destruct (digits (tl s) 0) as [mn1 s1]. cbn [snd] in C1.
   destruct (hd0 s1 =? 44) eqn:E44.
   - pose proof (cpx_digits (tl s1) (if hd0 (tl s1) =? 125 then (-1)%Z else 0%Z)) as C2.
     destruct (digits (tl s1) (if hd0 (tl s1) =? 125 then (-1)%Z else 0%Z)) as [mx1 s2]. cbn [snd] in C2.
-    assert (C3 : cpx s2 (tl s)). { eapply cpx_trans; [exact C2|]. eapply cpx_trans; [apply cpx_tl; lia | exact C1]. }
-    rewrite adv1 by (eapply cpx_brace; eauto). cbn [bind].
-    assert (S3 : sfx (tl s2) s). { eapply sfx_trans; [apply sfx_tl|]. eapply sfx_trans; [apply cpx_sfx; exact C3 | apply sfx_tl]. }
-    destruct ((NREPS <? mn1)%Z || (NREPS <? mx1)%Z || ((0 <=? mx1)%Z && (mx1 <? mn1)%Z)); eexists _, _; split; try reflexivity; exact S3.
-  - rewrite adv1 by (eapply cpx_brace; eauto). cbn [bind].
-    assert (S3 : sfx (tl s1) s). { eapply sfx_trans; [apply sfx_tl|]. eapply sfx_trans; [apply cpx_sfx; exact C1 | apply sfx_tl]. }
-    destruct ((NREPS <? mn1)%Z || (NREPS <? mn1)%Z || ((0 <=? mn1)%Z && (mn1 <? mn1)%Z)); eexists _, _; split; try reflexivity; exact S3.
+    assert (S2 : sfx s2 s). { eapply sfx_trans; [apply cpx_sfx; exact C2|]. eapply sfx_trans; [apply sfx_tl|]. eapply sfx_trans; [apply cpx_sfx; exact C1 | apply sfx_tl]. }
+    assert (S3 : sfx (tl s2) s) by (eapply sfx_trans; [apply sfx_tl | exact S2]).
+    match goal with |- context [if ?c then _ else _] => destruct c end; eexists _, _; split; try reflexivity; assumption.
+  - assert (S2 : sfx s1 s). { eapply sfx_trans; [apply cpx_sfx; exact C1 | apply sfx_tl]. }
+    assert (S3 : sfx (tl s1) s) by (eapply sfx_trans; [apply sfx_tl | exact S2]).
+    match goal with |- context [if ?c then _ else _] => destruct c end; eexists _, _; split; try reflexivity; assumption.
 Qed.
 
 Lemma rep_suffix_ok s : good s -> exists r s', rep_suffix s = Ok (r, s') /\ sfx s' s.
@@ -278,7 +276,8 @@ Lemma rset_pattern_good ps : good (rset_pattern ps).
 Proof. unfold rset_pattern. destruct (rset_build ps [40] 2) as [[[sb g] sg] gc]. right. rewrite last_last. reflexivity. Qed.
 
 (* without the wrapper the statement is false *)
-Lemma bare_brace_oob : parse_pat [97; 123] = OOB SBrace.
-Proof. vm_compute. reflexivity. Qed.
+(* "a{" no longer steps past the terminator (strict repetition suffix): the atom is refused, the flag is set *)
+Lemma bare_brace_rejected : parse_pat [97; 123] = Ok (None, []) /\ parse_bad [97; 123] = true.
+Proof. vm_compute. split; reflexivity. Qed.
 Lemma bare_backslash_spins : parse_pat [92] = NoFuel.
 Proof. vm_compute. reflexivity. Qed.
